@@ -11,12 +11,14 @@ package timeout
 //@   prop C11 C10
 //@   nopanic
 //@   havoc
+//@   stable c
 //@   modifies @NEXT_INVOKE, ghost.chansent[c], ghost.chanlen[*]
 //@   ensures [calls_next_once] ghost.fwd == old(ghost.fwd) + 1
 //@   ensures [delivers_exactly_one_outcome] ghost.chansent[c] == old(ghost.chansent[c]) + 1
 //@   ensures [panic_is_delivered_as_an_error] ghost.npanic > old(ghost.npanic) ==> lastsent(c).err != nil
 //@   ensures [result_is_delivered_unchanged] ghost.npanic == old(ghost.npanic) ==> same(lastsent(c).result, ghost.ret_result) && same(lastsent(c).err, ghost.ret_err)
 
+//@ rule closure_immutable (*ExecuteTimeout).Handler$1 prop=C11
 //@ rule goroutine_roots prop=C11
 // the caller's wait is bounded by the call's context
 //@ rule select_arms (*ExecuteTimeout).Handler done=1 prop=C10
